@@ -2043,6 +2043,23 @@ class SecondReferences(Base):
       s.q @= s.ws[0] ^ s.ws[1]
 
 
+@design(lambda st, a, b, sel, en, reset: (None, {"o": 1 if _sx(a ^ b, 8, 16) < _sx(b ^ 1, 8, 16) else 0, "p": 1 if _sx((a + b) & M8, 8, 12) >= 0x800 else 0,
+                                                 "q": (_sx(a ^ b, 8, 16) >> 4) & M8}))
+class SextUnsignedContext(Base):
+  """sign extension of compound expressions used where signedness matters: comparisons and a right shift"""
+  def construct(s):
+    s.ports()
+    s.o = OutPort(Bits1)
+    s.p = OutPort(Bits1)
+    s.q = OutPort(Bits8)
+
+    @update
+    def up_suc():
+      s.o @= sext(s.a ^ s.b, 16) < sext(s.b ^ 1, 16)
+      s.p @= sext(s.a + s.b, 12) >= 0x800
+      s.q @= trunc(sext(s.a ^ s.b, 16) >> 4, 8)
+
+
 def sequences():
   """input sequences (lists of dicts): one long deterministic walk covering every (sel, en) with varied a, b; reset pulses inside"""
   A = (0, 1, 0x5A, 0xFF, 0x80, 0x0F, 0x37)
